@@ -70,10 +70,32 @@ theorem scanMeasurement_head (buf n : Bytes) (e : MeasEnd) (h : scanMeasurement 
   cases buf with
   | nil => simp [scanMeasurement] at h; exact absurd h.2.symm he
   | cons b rest =>
-    unfold scanMeasurement at h
-    split at h
-    · simp at h; exact absurd h.2.symm he
-    · next hb => simp at h; exact ⟨b, _, h.1.symm, hb⟩
+    by_cases hb : b = cComma
+    · simp [scanMeasurement, hb] at h; exact absurd h.2.symm he
+    · rw [scanMeasurement, if_neg hb] at h
+      obtain ⟨h1, _⟩ := Prod.mk.inj h
+      exact ⟨b, _, h1.symm, hb⟩
+
+theorem scanKeySort_head (name : Bytes) (raws : List Bytes) (rest key r : Bytes) (b : Nat) (t : Bytes)
+    (hn : name = b :: t) (h : scanKeySort name raws rest = .ok (key, r)) : ∃ t', key = b :: t' := by
+  unfold scanKeySort at h
+  split at h
+  · cases h
+  · split at h
+    · cases h
+    · cases h; subst hn; exact ⟨_, rfl⟩
+
+theorem scanKeyTags_head (name r0 key r : Bytes) (b : Nat) (t : Bytes)
+    (hn : name = b :: t) (h : scanKeyTags name r0 = .ok (key, r)) : ∃ t', key = b :: t' := by
+  unfold scanKeyTags at h
+  split at h
+  · cases h
+  · split at h
+    · cases h
+    · split at h
+      · cases h
+      · cases h; subst hn; exact ⟨_, rfl⟩
+      · exact scanKeySort_head _ _ _ _ _ _ _ hn h
 
 theorem scanKey_head (buf key rest : Bytes) (h : scanKey buf = .ok (key, rest)) :
     ∃ b t, key = b :: t ∧ b ≠ cComma := by
@@ -86,20 +108,8 @@ theorem scanKey_head (buf key rest : Bytes) (h : scanKey buf = .ok (key, rest)) 
     cases h; exact ⟨b, t, hn, hb⟩
   · next name r0 hm =>
     obtain ⟨b, t, hn, hb⟩ := scanMeasurement_head _ _ _ hm (by simp)
-    subst hn
-    split at h
-    · cases h
-    · split at h
-      · cases h
-      · split at h
-        · cases h
-        · cases h; exact ⟨b, _, rfl, hb⟩
-        · simp only at h
-          split at h
-          · cases h
-          · split at h
-            · cases h
-            · cases h; exact ⟨b, _, rfl, hb⟩
+    obtain ⟨t', ht'⟩ := scanKeyTags_head _ _ _ _ _ _ hn h
+    exact ⟨b, t', ht', hb⟩
 
 theorem unescape_ne_nil (s : Bytes) (h : s ≠ []) : unescape s ≠ [] := by
   match s, h with
@@ -171,7 +181,10 @@ theorem safeCalcTime_range (v : Int) (prec : String) (t : Int) (h : safeCalcTime
 
 theorem truncTime_range (dt : Int) (prec : String) (h : dtSane dt = true) :
     MinNanoTime ≤ truncTime dt prec ∧ truncTime dt prec ≤ MaxNanoTime := by
-  simp only [dtSane, Bool.and_eq_true, decide_eq_true_eq, MinNanoTime, MaxNanoTime] at h
+  simp only [dtSane, Bool.and_eq_true] at h
+  have hlo := of_decide_eq_true h.1
+  have hhi := of_decide_eq_true h.2
+  simp only [MinNanoTime, MaxNanoTime] at hlo hhi
   have key : ∀ d : Int, 0 < d → d ≤ 3600000000000 →
       MinNanoTime ≤ wrap64 (dt - dt % d) ∧ wrap64 (dt - dt % d) ≤ MaxNanoTime := by
     intro d hd hd'
